@@ -198,6 +198,26 @@ def build_scripts(ctx, prop, tier):
     for i in range(nrand):
         scripts.append(gen_random_script(rng, prop, long=(i % 10 == 0)))
     stats["random_scripts"] = nrand
+    if prop == "C13":
+        # ---- (d) a storage call fails on the frame that starts a recording (a pre-trigger write, the write of the trigger
+        # frame, ...), and a bad frame arrives before the next motion frame: whatever is open must be ended by it
+        frng = ctx.sub_rng("proc.c13-fault-then-bad")
+        for i in range(24 if tier == "quick" else 300):
+            fps, preview, trig = frng.choice([1, 2, 3]), frng.choice([1, 1, 2]), frng.choice([1, 2, 3])
+            mn = frng.choice([1, 2, 3]); mx = mn + frng.choice([1, 3])
+            cfg = dict(fps=fps, preview=preview, trig=trig, min=mn, max=mx, const=frng.random() < 0.4, win=[], shadow=False, resx=4, resy=3)
+            steps = [dict(a="frame", motion=False, win=True, disk=True) for _ in range(frng.randint(preview * fps, preview * fps + 4))]
+            steps += [dict(a="frame", motion=True, win=True, disk=True) for _ in range(trig)]
+            fault = frng.choice(["mPre", "mPre", "mPre", "mW", "cW", "none"])
+            if fault == "mPre":
+                steps[-1]["mPre"] = frng.choice([1, 1, 2, 3])
+            elif fault != "none":
+                steps[-1][fault] = False
+            steps += [dict(a="frame", motion=False, win=True, disk=True) for _ in range(frng.choice([0, 0, 1, 2]))]
+            steps.append(dict(a="bad", zero=frng.randint(1, 11)))
+            steps += [dict(a="frame", motion=(frng.random() < 0.3), win=True, disk=True) for _ in range(frng.randint(3, mx * fps + 6))]
+            scripts.append(dict(cfg=cfg, steps=steps, origin="fault-then-bad"))
+        stats["fault_then_bad_scripts"] = 24 if tier == "quick" else 300
     return scripts, stats
 
 
@@ -410,6 +430,19 @@ def run(ctx, only_scripts=None):
                     seen.add(key)
                     violations.append(dict(v, key=key))
         stats["e2e_runs_with_overlapping_test_recordings"] = len(oruns)
+    if prop == "C02" and only_scripts is None:
+        # C02 behind the throttle as handleConn wires it (start threshold (min-secs+preview-secs)*fps, buckets that run
+        # dry during the run): a published file that begins with a trigger's pre-trigger frames holds the trigger frame
+        import fam_e2e
+        binp = ctx.go_test_build("./cmd/thermal-recorder", "tr.test")
+        pruns = fam_e2e.thr_probe_runs(ctx, binp)
+        for v in fam_e2e.judge_c11(ctx, pruns, binp):
+            if "file-with-preview-lacks-trigger-frame" in v["key"]:
+                key = "C02:end-to-end-throttled[file-with-preview-lacks-trigger-frame]"
+                if key not in seen:
+                    seen.add(key)
+                    violations.append(dict(v, key=key))
+        stats["e2e_runs_with_throttle"] = len(pruns)
     if prop == "C04" and only_scripts is None:
         import fam_e2e
         binp = ctx.go_test_build("./cmd/thermal-recorder", "tr.test")
